@@ -280,12 +280,12 @@ fn boxed_ops(op: &str, a: &[&str]) -> Option<String> {
         }
         ("c10.b.gcd_mixed", [lx, x, ly, y, vt]) => {
             let (x, y) = (arg!(boxed(x, arg!(dec(lx)))), arg!(boxed(y, arg!(dec(ly)))));
-            bhex(&if arg!(flag(vt)) { Gcd::gcd_vartime(&x, &y) } else { Gcd::gcd(&x, &y) })
+            bhexlen(&if arg!(flag(vt)) { Gcd::gcd_vartime(&x, &y) } else { Gcd::gcd(&x, &y) })
         }
         ("c10.b.odd_gcd_mixed", [lf, f, lg, g, vt]) => {
             let f = Odd::new(arg!(boxed(f, arg!(dec(lf))))).unwrap();
             let g = arg!(boxed(g, arg!(dec(lg))));
-            bhex(&if arg!(flag(vt)) { Gcd::gcd_vartime(&f, &g) } else { Gcd::gcd(&f, &g) })
+            bhexlen(&if arg!(flag(vt)) { Gcd::gcd_vartime(&f, &g) } else { Gcd::gcd(&f, &g) })
         }
         _ => return None,
     })
